@@ -496,8 +496,11 @@ pub fn c01_withdraw(m: &mut Mon, ctx: &StepCtx, stats: &mut Stats, out: &mut Vec
                     }
                     if total_u > 0 {
                         let share = muldiv(m.inflow, mine_u, total_u).unwrap_or(0);
-                        // rounding can cost a claimant up to ~5 units (split, -1 against the claimant, rate floor, claim floor)
-                        if share >= 6 {
+                        // rounding can cost a claimant up to ~5 units per release (split, -1 against the claimant, rate
+                        // floor) plus the claim floor of every one of its claims (one per batch and token type): a
+                        // claimant with many one-unit claims legitimately gets nothing for each of them
+                        let mine_due = mine.iter().filter(|r| due.contains(&r.0)).count() as u128;
+                        if share >= 6 + 2 * mine_due {
                             viol(out, "C01", "arrived_coins_not_stuck", ctx.idx, "hub.WithdrawUnbonded:funds_stuck", format!("{} coins arrived for due batches {:?}, {}'s pro-rata share is {}, yet withdraw fails: {}", m.inflow, due, signer, share, err));
                             viol(out, "C09", "matured_claim_is_withdrawable", ctx.idx, "hub.WithdrawUnbonded:funds_stuck", format!("the unbonding period of batches {:?} has passed and {} coins arrived ({}'s pro-rata share: {}), yet WithdrawUnbonded fails: {}", due, m.inflow, signer, share, err));
                         }
